@@ -9,6 +9,7 @@ import (
 )
 
 type loopRuntime struct {
+	entryVals map[*ssa.Phi]*SV
 	al       *activeLoop
 	lc       *LoopContract
 	decrease *Term // value of the variant at the loop head (arbitrary iteration)
@@ -164,9 +165,16 @@ func (u *Unit) loopHeader(fc *frameCtx, fi *fnInfo, li *loopInfo, st *State, pc 
 		if nextInLoop(li, k) {
 			n := *it
 			n.pos = c.Fresh("iterpos", SInt)
-			ks := u.mapKeySort(it.mt)
-			u.assume(pc, c.And(c.Le(it.pos, n.pos), c.Le(n.pos, u.mcard(ks, it.dom))))
+			u.assume(pc, c.And(c.Le(it.pos, n.pos), c.Le(n.pos, it.n)))
 			st.iters[k] = &n
+		}
+	}
+	// slices carried around the loop keep their backing array or move to one allocated inside the loop
+	for _, p := range phis {
+		if _, ok := p.Type().Underlying().(*types.Slice); ok {
+			ent := entryVals[p].T
+			nv := newVals[p].T
+			u.assume(pc, c.Or(c.Eq(c.Root(c.SArr(nv)), c.Root(c.SArr(ent))), c.Ge(c.Root(c.SArr(nv)), al.bound)))
 		}
 	}
 	// compiler-generated range counters start at -1 and only grow
@@ -180,7 +188,7 @@ func (u *Unit) loopHeader(fc *frameCtx, fi *fnInfo, li *loopInfo, st *State, pc 
 	for _, inv := range lc.Invariants {
 		u.assume(pc, u.evalClause(envH, inv))
 	}
-	rt := &loopRuntime{al: al, lc: lc}
+	rt := &loopRuntime{al: al, lc: lc, entryVals: entryVals}
 	if lc.Decreases != nil {
 		rt.decrease = envH.evalTerm(lc.Decreases.E)
 	}
@@ -249,6 +257,16 @@ func (u *Unit) addEdge(fc *frameCtx, fi *fnInfo, in map[*ssa.BasicBlock][]edge, 
 			label = fmt.Sprintf("%d", i)
 		}
 		u.oblige("inv-pres", fmt.Sprintf("loop%d-%s", li.ordinal, label), inv.Tags, guard, p, "loop invariant preserved: "+inv.Src, li.pos)
+	}
+	for _, p := range headerPhis(li) {
+		if _, ok := p.Type().Underlying().(*types.Slice); ok {
+			ent := rt.entryVals[p].T
+			nv := vals[p].T
+			prop := c.Or(c.Eq(c.Root(c.SArr(nv)), c.Root(c.SArr(ent))), c.Ge(c.Root(c.SArr(nv)), rt.al.bound))
+			if !prop.IsTrue() {
+				u.oblige("inv-pres", fmt.Sprintf("loop%d-auto-backing-%s", li.ordinal, phiHint(p)), nil, guard, prop, "slice carried by the loop keeps its backing array or gets one allocated in the loop", li.pos)
+			}
+		}
 	}
 	if rt.decrease != nil {
 		nv := env.evalTerm(rt.lc.Decreases.E)
@@ -373,12 +391,44 @@ func (u *Unit) loopFrame(fc *frameCtx, li *loopInfo, lc *LoopContract, st *State
 		}
 		return false
 	}
+	// exact address of a loop-invariant field chain (base defined outside the loop, constant field steps)
+	var exactAddr func(v ssa.Value, depth int) *Term
+	exactAddr = func(v ssa.Value, depth int) *Term {
+		if depth > 12 {
+			return nil
+		}
+		if !inLoop(v) {
+			if sv, ok := fc.vals[v]; ok && sv.T != nil && sv.T.Sort == SRef {
+				return sv.T
+			}
+			return nil
+		}
+		if fa, ok := v.(*ssa.FieldAddr); ok {
+			base := exactAddr(fa.X, depth+1)
+			if base == nil {
+				return nil
+			}
+			pt := fa.X.Type().Underlying().(*types.Pointer).Elem()
+			return c.Fld(base, u.e.lay.fieldID(pt, pt.Underlying().(*types.Struct), fa.Field))
+		}
+		return nil
+	}
 	for b := range li.blocks {
 		for _, in := range b.Instrs {
 			switch x := in.(type) {
 			case *ssa.Store:
 				et := x.Addr.Type().Underlying().(*types.Pointer).Elem()
 				addKindsOf(et)
+				if !declared {
+					if _, isAlloc := x.Addr.(*ssa.Alloc); !isAlloc {
+						if a := exactAddr(x.Addr, 0); a != nil {
+							var locs []leafLoc
+							u.leafAddrs(a, et, &locs)
+							fr.Leaves = append(fr.Leaves, locs...)
+							continue
+						}
+					}
+				}
 				if !traceAddr(x.Addr, 0) && !declared {
 					u.warn("loop %d of %s: store target not traceable, loop frame is 'everything'", li.ordinal, fc.fn.Name())
 					any = true
@@ -431,6 +481,7 @@ func (u *Unit) loopFrame(fc *frameCtx, li *loopInfo, lc *LoopContract, st *State
 		}
 	}
 	if any {
+		u.warn("loop %d of %s: frame is 'everything' (a written map or object is computed inside the loop); add 'loop %d modifies ...'", li.ordinal, fc.fn.Name(), li.ordinal)
 		return &FrameSpec{Any: true}
 	}
 	return fr
@@ -442,6 +493,7 @@ func (u *Unit) addMapKinds(fr *FrameSpec, mt *types.Map) {
 	}
 	ks := u.mapKeySort(mt)
 	fr.Kinds["MD:"+ks.Name] = true
+	fr.Kinds["ML:"+ks.Name] = true
 	for _, ml := range u.mapValLeaves(mt) {
 		fr.Kinds[ml.key] = true
 	}
